@@ -50,6 +50,11 @@ import traceback
 from . import core
 
 HORIZON = 100_000
+# every execution starts with this interpreter recursion limit (the value
+# core.bootstrap gives the main process and the pmap workers), in the exploring
+# processes and in the pristine solo baselines alike; the limit is process-wide
+# state that code under test might change
+RECURSION_LIMIT = 3000
 
 
 class Divergence(RuntimeError):
@@ -83,7 +88,9 @@ class Scheduler:
             lk.acquire()
             self.locks.append(lk)
             self.points.append(self._make_point(t))
-            old = threading.stack_size(32 * 1024 * 1024)
+            # large thread stacks: the interpreter's recursion limit, not the C
+            # stack, must be what stops a deeply nested parse
+            old = threading.stack_size(256 * 1024 * 1024)
             try:
                 th = threading.Thread(target=self._worker, args=(t,), daemon=True,
                                       name=f"sched-task-{t}")
@@ -96,8 +103,16 @@ class Scheduler:
         def point(label="point"):
             if self.aborting:
                 raise _Abort()
-            self.steps[t] += 1
-            nxt = self._decide(t, label, False)
+            # a task may arrive here a few frames below the recursion limit;
+            # the scheduler's own bookkeeping must not die half-way, so it gets
+            # some headroom and puts the limit back before the baton moves
+            lim = sys.getrecursionlimit()
+            sys.setrecursionlimit(lim + 200)
+            try:
+                self.steps[t] += 1
+                nxt = self._decide(t, label, False)
+            finally:
+                sys.setrecursionlimit(lim)
             if nxt != t:
                 self.switches += 1
                 self.locks[nxt].release()
@@ -107,7 +122,6 @@ class Scheduler:
 
     def _worker(self, t):
         lk = self.locks[t]
-        sys.setrecursionlimit(3000)
         while True:
             lk.acquire()  # wait for the baton
             job = self.jobs[t]
@@ -174,6 +188,7 @@ class Scheduler:
         self.preemptions = 0
         self.switches = 0
         self.executions += 1
+        sys.setrecursionlimit(RECURSION_LIMIT)
         first = self._decide(None, "start", True)
         self.locks[first].release()
         if not self.done.acquire(timeout=300):
@@ -202,15 +217,28 @@ def scheduler():
 # ---------------------------------------------------------------------------
 # scheduling points
 # ---------------------------------------------------------------------------
-def token_lexer(point):
+def token_lexer(point, first=None, every=None):
     """A CLexer subclass (to be passed as CParser(lexer=...)) whose every
-    token() call is a scheduling point (taken *before* the pull)."""
+    token() call is a scheduling point (taken *before* the pull).  For very
+    long inputs the points can be thinned out: with first=f, every=e only the
+    first f pulls and then every e-th pull are points."""
     from pycparser.c_lexer import CLexer
 
-    class SchedLexer(CLexer):
-        def token(self):
-            point("token")
-            return super().token()
+    if first is None:
+        class SchedLexer(CLexer):
+            def token(self):
+                point("token")
+                return super().token()
+    else:
+        class SchedLexer(CLexer):
+            _pulls = 0
+
+            def token(self):
+                n = self._pulls
+                self._pulls = n + 1
+                if n < first or n % every == 0:
+                    point("token")
+                return super().token()
 
     return SchedLexer
 
